@@ -7,6 +7,11 @@
  *   new <id> narr|nlst arr|lst|tab <c>*      an Array / List whose elements are Arrays / Lists / Tables of Int (c = c<int>.<int>…)
  *   new <id> junk dead|bad                   an object whose header carries the freed-object magic number / a foreign one
  *   get|set|mem|rem|push|pushat|pop|popat|resize|len|concat|append|assign|print|typeof|cast|dealloc|deallocelem <id|N> ...
+ *   sort <id|N>                              sort(x) = sort_by(x, lt): Array and Tuple; a Tuple whose items are not of one type is the
+ *                                            territory of finding KF-C12-sort-partial (a comparison raises after elements were exchanged)
+ *   assignself <id|N>                        assign(x, x): the target is its own operand (String: no-op since fix 744a45f, also on
+ *                                            stack / static Strings; Array/List/Table/Tree: `self is obj` guard; Int; Tuple).  Always
+ *                                            probed in a forked child first.
  *   getk|getv <tab> <k>                      get(table, p) where p is an address inside the table's own slot array: the key object
  *                                            (getk) / the value object (getv) of the occupied slot that holds key k (bad-op when no
  *                                            slot holds k).  Since fix bc940bb Table_Get takes its address shortcut only for the key
@@ -375,9 +380,9 @@ static void nshadow_sync(HObj* h) {
 
 /* ------------------------------------------------------------------------------------------------ ops */
 enum { OP_GET, OP_SET, OP_MEM, OP_REM, OP_PUSH, OP_PUSHAT, OP_POP, OP_POPAT, OP_RESIZE, OP_LEN, OP_CONCAT, OP_APPEND, OP_ASSIGN,
-       OP_PRINT, OP_TYPEOF, OP_CAST, OP_DEALLOC, OP_DEALLOCELEM, OP_GETK, OP_GETV, OP_NOPS };
+       OP_PRINT, OP_TYPEOF, OP_CAST, OP_DEALLOC, OP_DEALLOCELEM, OP_GETK, OP_GETV, OP_SORT, OP_ASSIGNSELF, OP_NOPS };
 static const char* op_name[] = { "get", "set", "mem", "rem", "push", "pushat", "pop", "popat", "resize", "len", "concat", "append", "assign",
-       "print", "typeof", "cast", "dealloc", "deallocelem", "getk", "getv" };
+       "print", "typeof", "cast", "dealloc", "deallocelem", "getk", "getv", "sort", "assignself" };
 typedef struct {
   int code; HVal a, b; long n;
   int src_cont; CVal cv;           /* set / push / pushat on a nested container: the source is a container token */
@@ -403,7 +408,7 @@ static int parse_op(int code, char** w, int nw, Op* op) {   /* w: tokens after t
     case OP_PUSHAT:                                                                          /* b = value, a = key */
       if (nw == 2 && w[0][0] == 'c') { op->src_cont = 1; return parse_cval(w[0], &op->cv) && parse_val(w[1], &op->a); }
       return nw == 2 && parse_val(w[0], &op->b) && parse_val(w[1], &op->a);
-    case OP_POP: case OP_LEN: case OP_TYPEOF: case OP_DEALLOC: return nw == 0;
+    case OP_POP: case OP_LEN: case OP_TYPEOF: case OP_DEALLOC: case OP_SORT: case OP_ASSIGNSELF: return nw == 0;
     case OP_RESIZE: return nw == 1 && parse_nat(w[0], &op->n) && op->n <= 64;
     case OP_DEALLOCELEM: return nw == 1 && parse_nat(w[0], &op->n);
     case OP_CAST: if (nw != 1 || strlen(w[0]) > 20) return 0; strcpy(op->tname, w[0]); return 1;
@@ -528,10 +533,32 @@ static const char* ref_print(HObj* h, Op* op, RefOut* out) {
   return NULL;
 }
 
+/* `lt` on two values of one kind: Int numerically, String by strcmp, Plain by memcmp of the struct (what the generic cmp does) */
+static int ref_lt(const HVal* a, const HVal* b) {
+  if (a->tag == 'i') return a->i < b->i;
+  if (a->tag == 's') return strcmp(a->s, b->s) < 0;
+  return memcmp(&a->i, &b->i, sizeof a->i) < 0;
+}
+static int ref_homogeneous(Shadow* s) {
+  for (int i = 0; i < s->n; i++) if (s->v[i].tag != s->v[0].tag || (s->v[i].tag != 'i' && s->v[i].tag != 's' && s->v[i].tag != 'p')) return 0;
+  return 1;
+}
+
 static const char* ref_apply(HObj* h, Op* op, RefOut* out) {
   Shadow* s = h->sh; int idx = 0, at = -1; const char* e;
   out->text[0] = 0; out->from_assign = 0; out->no_expectation = 0;
   if (h->kind == K_JUNK) return E_VALUE;     /* Type_Of refuses the header before anything else is looked at */
+  if (op->code == OP_SORT) {
+    /* documented: Array and Tuple are sortable; the items end up in ascending order.  Items that cannot be compared with one another:
+       some exception (which one depends on the pair met first) — and, C12, the container as it was */
+    if (h->kind != K_ARR && h->kind != K_TUP) return E_CLASS;
+    if (s->n < 2) return NULL;
+    if (!ref_homogeneous(s)) { out->no_expectation = 1; return NULL; }
+    for (int i = 1; i < s->n; i++) { HVal x = s->v[i]; int j = i - 1; while (j >= 0 && ref_lt(&x, &s->v[j])) { s->v[j+1] = s->v[j]; j--; } s->v[j+1] = x; }
+    return NULL;
+  }
+  if (op->code == OP_ASSIGNSELF)             /* an object assigned to itself stays what it is; a Tuple off the heap cannot be (re)allocated */
+    return h->kind == K_TUP && nonheap(h) ? E_VALUE : NULL;
   if (op->code == OP_TYPEOF) { strcpy(out->text, obj_type_name(h)); return NULL; }
   if (op->code == OP_CAST) return strcmp(op->tname, obj_type_name(h)) == 0 ? NULL : E_VALUE;
   if (op->code == OP_DEALLOC || op->code == OP_DEALLOCELEM) return E_RES;
@@ -712,6 +739,8 @@ static var do_call(var target, HObj* h, Op* op, char* res) {
     case OP_TYPEOF: V_TRY(exc, { var t = type_of(target); strcpy(val, c_str(t)); }); break;
     case OP_CAST: { var t = type_by_name(op->tname); V_TRY(exc, cast(target, t)); break; }
     case OP_DEALLOC: V_TRY(exc, dealloc(target)); break;
+    case OP_SORT: V_TRY(exc, sort(target)); break;
+    case OP_ASSIGNSELF: V_TRY(exc, assign(target, target)); break;
     case OP_DEALLOCELEM: V_TRY(exc, { var e = get(target, $I(op->n)); dealloc(e); }); break;
     case OP_PRINT: {
       char fmt[512] = ""; var args = new(Tuple);
@@ -834,6 +863,8 @@ static size_t real_len(HObj* h) {
 static int excluded(HObj* h, Op* op) {
   if (op->code == OP_GETK || op->code == OP_GETV) return h->kind != K_TAB || slot_of(h->obj, &op->a) < 0;   /* a slot of this Table must hold the key */
   if (op->src_cont && !NEST(h)) return 1;                      /* container tokens are sources for nested containers only */
+  if (op->code == OP_ASSIGNSELF)                               /* the kinds whose self-assignment the model describes */
+    return !(h->kind == K_STR || h->kind == K_ARR || h->kind == K_LST || h->kind == K_TAB || h->kind == K_TRE || h->kind == K_TUP || (h->kind == K_VAL && h->ty == 'i'));
   if (NEST(h)) {
     const HVal* srcv = op->code == OP_SET || op->code == OP_PUSHAT ? &op->b : &op->a;
     switch (op->code) {
@@ -935,7 +966,7 @@ static void run_line(char* l, int lineno) {
   /* 3. the real call.  Whatever the reference expects to fail (and Range/Slice get, whose index arithmetic can overflow)
         runs first in a forked child: a call that dies is reported, and not repeated in this process. */
   char res[400]; var exc = NULL; int crashed = 0;
-  int risky = want != NULL || ro.no_expectation || ((h->kind == K_RNG || h->kind == K_SLC) && code == OP_GET);
+  int risky = want != NULL || ro.no_expectation || ((h->kind == K_RNG || h->kind == K_SLC) && code == OP_GET) || code == OP_ASSIGNSELF;
   if (risky && probe_crashes(h->obj, h, &op)) { crashed = 1; strcpy(res, "ub"); n_crashed++; }
   else exc = do_call(h->obj, h, &op, res);
   n_ops++; if (exc) { n_raised++; count_exc(v_exc_name(exc)); }
@@ -997,6 +1028,7 @@ static void run_line(char* l, int lineno) {
       if (h->kind == K_ARR && ro.from_assign && (code == OP_PUSH || code == OP_APPEND || code == OP_PUSHAT || code == OP_CONCAT)) sig = "kf-c12-array-push-type";
       if (h->kind == K_STR && code == OP_PRINT) sig = "kf-c12-print-partial";
       if (h->kind == K_LST && code == OP_CONCAT) sig = "kf-c12-list-concat-partial";
+      if ((h->kind == K_TUP || h->kind == K_ARR) && code == OP_SORT) sig = "kf-c12-sort-partial";
       if (sig) X("sig=%s line=%d what=%s %s raised %s and changed the object: `%s%s` -> `%s%s`", sig, lineno, kn, on, got, pub0.head, pub0.tail, pub1.head, pub1.tail);
       else X("sig=c12-%s-%s line=%d what=%s raised and the object changed: `%s%s` -> `%s%s`", kn, on, lineno, got, pub0.head, pub0.tail, pub1.head, pub1.tail);
       n_x++; if (h->sh || h->nsh) shadow_sync(h);
